@@ -4,7 +4,9 @@
    prose version.  Reference style: on-the-fly GetOp on the remaining bytes, stacks with
    the TOP AT THE HEAD, opcode numbers as literals, CScriptNum arithmetic, no exceptions –
    [None] is failure. *)
-From BV Require Import Common.Base Common.Tx Common.ScriptFlags.
+From BV Require Import Common.Base Common.Tx Common.ScriptFlags Model.Script Spec.Script.
+(* number codec (num_enc / num_dec), GetOp (Spec.Script.get_op), push-only and P2SH shape are
+   the reference definitions of Spec/Script.v (C08) *)
 
 (* ---------- data ---------- *)
 (* bool(v): some byte non-zero, except that a final 0x80 with all other bytes zero is false *)
@@ -14,26 +16,9 @@ Fixpoint ref_bool (v : bytes) : bool :=
   | [b] => negb ((b2z b =? 0) || (b2z b =? 0x80))
   | b :: t => negb (b2z b =? 0) || ref_bool t
   end.
-(* num(v): little-endian magnitude, top bit of the last byte is the sign; at most 4 bytes *)
-Definition ref_num_any (v : bytes) : Z :=
-  match rev v with
-  | [] => 0
-  | lastb :: _ =>
-      let mag := le_dec v - (if 0x80 <=? b2z lastb then 0x80 * 256 ^ (lenZ v - 1) else 0) in
-      if 0x80 <=? b2z lastb then - mag else mag
-  end.
-Definition ref_num (v : bytes) : option Z := if lenZ v >? 4 then None else Some (ref_num_any v).
-(* enc(n): the minimal such encoding; 0 is the empty string *)
-Fixpoint mag_bytes (fuel : nat) (m : Z) : list Z :=     (* little-endian bytes of m > 0 *)
-  match fuel with O => [] | S f => if m <=? 0 then [] else (m mod 256) :: mag_bytes f (m / 256) end.
-Definition ref_enc (n : Z) : bytes :=
-  if n =? 0 then [] else
-  let m := Z.abs n in
-  let bs := mag_bytes (S (Z.to_nat (Z.log2 m))) m in
-  let lastb := last bs 0 in
-  let bs' := if 0x80 <=? lastb then bs ++ [if n <? 0 then 0x80 else 0]
-             else if n <? 0 then removelast bs ++ [lastb + 0x80] else bs in
-  map z2b bs'.
+(* num(v): CScriptNum, at most 4 bytes;  enc(n): the minimal encoding *)
+Definition ref_num (v : bytes) : option Z := if lenZ v >? 4 then None else Some (num_dec v).
+Definition ref_enc (n : Z) : bytes := num_enc n.
 Definition vtrue : bytes := [x01].
 Definition vfalse : bytes := [].
 Definition of_bool (b : bool) : bytes := if b then vtrue else vfalse.
@@ -275,9 +260,10 @@ Fixpoint eval_loop (fuel : nat) (code : bytes) (s : rstate) : option rstate :=
     match fuel with
     | O => None
     | S f =>
-      match get_op code with
-      | None => None
-      | Some (op, data, rest) =>
+      match Spec.Script.get_op code with
+      | Err _ => None
+      | Ok (op, d, rest) =>
+          let data := match d with Some x => x | None => [] end in
           let fExec := forallb (fun b => b) (r_vf s) in
           if lenZ data >? 520 then None else
           let nop := if op >? 0x60 then r_nop s + 1 else r_nop s in
@@ -300,16 +286,6 @@ Definition eval_ref (st : list bytes) (script : bytes) : option (list bytes) :=
   | None => None
   end.
 
-(* push-only: every operation decodes and has opcode <= OP_16 *)
-Fixpoint push_only (fuel : nat) (code : bytes) : bool :=
-  match code with
-  | [] => true
-  | _ => match fuel with O => false | S f =>
-           match get_op code with Some (op, _, rest) => (op <=? 0x60) && push_only f rest | None => false end end
-  end.
-Definition is_p2sh_ref (spk : bytes) : bool :=
-  (length spk =? 23)%nat && bytes_eqb (firstn 2 spk) [xa9; x14] && bytes_eqb (skipn 22 spk) [x87].
-
 Definition verify_ref (scriptSig scriptPubKey : bytes) : bool :=
   match eval_ref [] scriptSig with
   | None => false
@@ -322,8 +298,8 @@ Definition verify_ref (scriptSig scriptPubKey : bytes) : bool :=
           | top :: _ =>
               if negb (ref_bool top) then false else
               let after_p2sh : option (list bytes) :=
-                if f_p2sh fl && is_p2sh_ref scriptPubKey then
-                  if negb (push_only (S (length scriptSig)) scriptSig) then None else
+                if f_p2sh fl && ref_p2sh scriptPubKey then
+                  if negb (ref_push_only scriptSig) then None else
                   match st1 with
                   | [] => None
                   | redeem :: st =>
